@@ -53,7 +53,7 @@ def run(ctx):
         if mc:
             calls[mc.group(1)] = int(mc.group(2))
             continue
-        m = re.match(r"(\S+) delivered=(\d) sigf=(-?\d+) wait=(-?\d+)", line)
+        m = re.match(r"(\S+) delivered=(\d) sigf=(-?\d+) wait=(-?\d+)(?: self=(\d))?", line)
         if not m:
             if line.strip():
                 offs.append(("execsig:" + line.split()[0] + ":start-failed", "scenario could not be started: " + line,
@@ -63,6 +63,13 @@ def run(ctx):
         pt = re.match(r"pt(\d+):([^:]+)(:s)?$", m.group(1))
         if pt:
             points.append(pt.group(2))
+        if pt and m.group(5) == "1":
+            offs.append(("execsig:hit-pdsh-itself:before-%s" % pt.group(2),
+                         "exec module: SIGINT forwarded while the just-forked child of the command was stopped before its "
+                         "call no. %s after fork(), %s(), was (also) sent to the sender: the child is still in the process "
+                         "group of pdsh there, and a signal to `its group` goes to pdsh and to everything else in that group" %
+                         (pt.group(1), pt.group(2)),
+                         {"harness": "harness/execsig_harness.c <sig_helper>", "scenario": m.group(1), "line": line}))
         if m.group(2) != "1" and pt:
             # one offender per kind of call the child was about to make (closeall() alone has a point per descriptor)
             offs.append(("execsig:not-delivered:before-%s%s" % (pt.group(2), pt.group(3) or ""),
